@@ -1,11 +1,14 @@
 package c18
 
 import (
+	"context"
 	"fmt"
 	"os"
 	"os/exec"
 	"path/filepath"
+	"regexp"
 	"strings"
+	"time"
 
 	"verifharness/drv"
 )
@@ -22,11 +25,19 @@ func raceRun(o *drv.Out) {
 		return
 	}
 	bin := filepath.Join(wd, "bin", "c18race")
-	build := exec.Command("go", "build", "-race", "-tags", "verif", "-o", bin, "./cmd/c18")
+	// the first race-instrumented build of the whole dependency tree is slow (minutes); it has a budget
+	ctx, cancel := context.WithTimeout(context.Background(), 15*time.Minute)
+	defer cancel()
+	build := exec.CommandContext(ctx, "go", "build", "-race", "-tags", "verif", "-o", bin, "./cmd/c18")
 	build.Dir = wd
 	build.Env = append(os.Environ(), "GOFLAGS=-mod=mod", "GOPROXY=off", "CGO_ENABLED=1")
 	if out, err := build.CombinedOutput(); err != nil {
-		o.Extra["race_detector"] = "skipped: race build failed: " + tail(string(out), 400)
+		if ctx.Err() != nil {
+			o.Extra["race_detector"] = "skipped (build budget): go build -race did not finish within 15 min"
+		} else {
+			o.Extra["race_detector"] = "skipped: race build failed: " + tail(string(out), 400)
+		}
+		o.Count("race-detector:skipped")
 		return
 	}
 	dir := filepath.Join(o.Dir, "race")
@@ -35,27 +46,66 @@ func raceRun(o *drv.Out) {
 	run.Env = append(os.Environ(), "GORACE=halt_on_error=0")
 	out, err := run.CombinedOutput()
 	reports := strings.Split(string(out), "WARNING: DATA RACE")
-	n, inP2P := len(reports)-1, 0
-	first := ""
+	n := len(reports) - 1
+	bySig := map[string]string{}
 	for _, r := range reports[1:] {
 		if i := strings.Index(r, "=================="); i >= 0 {
 			r = r[:i]
 		}
-		if strings.Contains(r, "canopy/p2p.") {
-			inP2P++
-			if first == "" {
-				first = r
+		if sig := raceSignature(r); sig != "" {
+			if _, seen := bySig[sig]; !seen {
+				bySig[sig] = r
 			}
 		}
 	}
+	sigs := []string{}
+	for sig := range bySig {
+		sigs = append(sigs, sig)
+	}
 	o.Extra["race_detector"] = map[string]any{
 		"what":    "go build -race of the C18 driver; concurrent senders over all topics through a recording relay + hand-driven packet scripts against real MultiConns; supporting evidence only (a test, not a proof)",
-		"reports": n, "reports_through_canopy_p2p": inP2P, "exit_error": fmt.Sprint(err),
+		"reports": n, "signatures_through_canopy_p2p": sigs, "exit_error": fmt.Sprint(err),
 	}
 	o.Count(fmt.Sprintf("race-detector:reports=%d", n))
-	if inP2P > 0 {
-		o.Fail("C18:data-race-detected", "the Go race detector reported a data race with canopy/p2p frames on the stack", tail(first, 3000))
+	for sig, r := range bySig {
+		o.Fail(sig, "the Go race detector reported a data race with canopy/p2p frames on both access stacks or on the accessing goroutines", tail(r, 3000))
 	}
+}
+
+var p2pFrame = regexp.MustCompile(`canopy/p2p\.\(?\*?([A-Za-z0-9_]+)\)?\.([A-Za-z0-9_]+)`)
+
+// raceSignature classifies one report by the innermost canopy/p2p function of each of the two
+// conflicting accesses. The pair fixed by /repo commit 3ca164a (Stream.handlePacket vs Stream.cleanup on
+// msgAssembler) keeps the plain signature; every other pair gets its own.
+func raceSignature(report string) string {
+	// the two access stacks are the first two blank-line separated blocks
+	blocks := strings.Split(strings.TrimSpace(report), "\n\n")
+	var fns []string
+	for _, b := range blocks {
+		if len(fns) == 2 {
+			break
+		}
+		if !(strings.Contains(b, " at 0x") && strings.Contains(b, "by goroutine")) && !strings.Contains(b, "by main goroutine") {
+			continue
+		}
+		m := p2pFrame.FindStringSubmatch(b)
+		if m == nil {
+			fns = append(fns, "")
+			continue
+		}
+		fns = append(fns, m[1]+"."+m[2])
+	}
+	if len(fns) < 2 || (fns[0] == "" && fns[1] == "") {
+		return "" // no canopy/p2p code on either access: not about the property (harness or library code)
+	}
+	pair := fns[0] + "+" + fns[1]
+	switch {
+	case pair == "Stream.handlePacket+Stream.cleanup" || pair == "Stream.cleanup+Stream.handlePacket":
+		return "C18:data-race-detected"
+	case strings.Contains(pair, "Stream.queueSend") && strings.Contains(pair, "Stream.cleanup"):
+		return "C18:data-race-detected:sendQueue-after-close"
+	}
+	return "C18:data-race-detected:" + pair
 }
 
 func tail(s string, n int) string {
